@@ -34,6 +34,7 @@ class RustNestingAnalyzer(RustBaseAnalyzer):
         "while_expression",
         "for_expression",
         "closure_expression",
+        "async_block",
     }
 
     def calculate_max_depth(self, func_node: Any) -> tuple[int, int]:
